@@ -157,7 +157,7 @@ func (exp *exporter) epubGenContentOpf(title string, lang string, cover string) 
 		}
 		fmt.Fprintf(buf, "<meta property=\"dcterms:modified\">%s</meta>\n", t)
 	}
-	if subject := html.EscapeString(ctx.Params["epub-subject"]); subject != "" {
+	if subject := ctx.Params["epub-subject"]; subject != "" { // rendered at assignment
 		fmt.Fprintf(buf, "<dc:subject id=\"epub-subject-1\">%s</dc:subject>\n", subject)
 	}
 	if author := ctx.Params["document-author"]; author != "" {
